@@ -10,7 +10,7 @@ def make_cases(rng, tier, n):
     for i in range(n):
         c = gen.basic_project(rng, "co-%d" % i, tier, stats=stats, allow_skip=False, allow_inputs=False)
         big = []
-        if i % 40 == 8:
+        if i % (40 if tier == "quick" else 120) == 8:
             # objects of tens of MiB (32 MiB and one byte more), stand-alone and inside a directory: whatever path such sizes take
             # through checkout, an entry in the way is neither followed nor truncated
             c["init"] += [("file", b"huge.bin", "g:%d:%d" % (rng.randrange(100), 1 << 25)), ("dir", b"hugedir"), ("dir", b"hugedir/sub"),
